@@ -243,7 +243,7 @@ pub fn deadline_s(s: &Scn) -> f64 {
 pub fn generate(out: &mut Out, rng: &Prng, thorough: bool) {
     let scenarios = if thorough { 1500 } else { 60 };
     let explore = std::env::var_os("VERIF_LOOP_EXPLORE").is_some();
-    let mut g = FGen { ex: FiltExec::default(), out, cfg: None, dead: false, ops: 0 };
+    let mut g = FGen { ex: FiltExec::default(), out, cfg: None, dead: false, ops: 0, last_line: String::new() };
     for i in 0..scenarios {
         let mut s = random_scn(rng, i % 3 == 0);
         s.duration_s = deadline_s(&s) as i64 + 200;
@@ -284,14 +284,14 @@ pub fn generate(out: &mut Out, rng: &Prng, thorough: bool) {
             Some(ts) if ts <= dl => {
                 g.out.count("loop.converged");
                 if r.steps_after_settle > 0 {
-                    g.out.oracle("C02", "stepped-after-convergence", &format!("FLT closed-loop {desc} -> {} step(s) after the offset had come below {} ns at {:.1} s", r.steps_after_settle, r.bound / NS, ts));
+                    g.out.oracle("C02", "stepped-after-convergence", &format!("{} -> closed loop {desc}: {} step(s) after the offset had come below {} ns at {:.1} s", g.last_line, r.steps_after_settle, r.bound / NS, ts));
                 }
             }
             Some(ts) => {
-                g.out.oracle("C02", "converges-too-late", &format!("FLT closed-loop {desc} -> true offset last exceeded {} ns at {:.1} s (deadline {:.0} s)", r.bound / NS, ts, dl));
+                g.out.oracle("C02", "converges-too-late", &format!("{} -> closed loop {desc}: true offset last exceeded {} ns at {:.1} s (deadline {:.0} s)", g.last_line, r.bound / NS, ts, dl));
             }
             None => {
-                g.out.oracle("C02", "does-not-stay-converged", &format!("FLT closed-loop {desc} -> true offset still exceeds {} ns in the last 10 s of {} s ({:?}), final offset {} ns", r.bound / NS, s.duration_s, r.last_excursion.map(|(t, v)| (t, v / NS)), r.final_theta / NS));
+                g.out.oracle("C02", "does-not-stay-converged", &format!("{} -> closed loop {desc}: true offset still exceeds {} ns in the last 10 s of {} s ({:?}), final offset {} ns", g.last_line, r.bound / NS, s.duration_s, r.last_excursion.map(|(t, v)| (t, v / NS)), r.final_theta / NS));
             }
         }
     }
